@@ -6,9 +6,10 @@ class C18(Check):
     props_rel = "Props/C18"
     corr_module = "Corr.C18"
     corr_rel = "Corr/C18"
-    model_desc = ("Model/Sig0.v: SIG.Sign (buffer sized from m.Len(), PackBuffer reallocation test, PackRR, digest input, "
-                  "RDLENGTH/ARCOUNT patch) and SIG.Verify (question and record skipping by raw offsets, window, signer, digest "
-                  "input with byte((adc-1)<<8)) on octet strings with Go's slice/index panics as explicit Panic results; "
+    model_desc = ("Model/Sig0.v: SIG.Sign (buffer sized from the uncompressed length + 1 + Len(rr), PackBuffer reallocation "
+                  "test, PackRR, digest input, RDLENGTH/ARCOUNT patch) and SIG.Verify (question and record skipping by raw "
+                  "offsets, window, signer, digest input with the 16-bit ARCOUNT-1) on octet strings with Go's slice/index "
+                  "panics as explicit Panic results; "
                   "Model/Wire.v: UnpackDomainName and the strict framing predicate; hash-then-sign / hash-then-verify are "
                   "Section variables over the digest input octets")
     rule = ("direct oracles on the implementation: sign random messages (all record kinds, with and without compression, up to "
@@ -21,7 +22,7 @@ class C18(Check):
             "input longer than a header; distinct by hash of (function, arguments, output).")
     partial = ["signing and signature checking are Section variables: that a signature by the private key verifies under the "
                "public key (sig_sound) and that a signature fits one digest input only (sig_binding) are named hypotheses",
-               "m.Len(), the uncompressed length and m.Pack() are inputs of the sign model; Len >= |Pack| is property C08",
+               "the uncompressed length and m.Pack() are inputs of the sign model; |Pack| <= uncompressed length + 1 is property C08",
                "the clock cannot be injected into SIG.Verify: window cases are judged only when the clock did not tick during "
                "the call",
                "messages above 3000 octets are checked by the direct oracles only (no 64 KiB literals in model cases)"]
